@@ -117,6 +117,116 @@ def _truth_tested_names(fn, before=None):
     return out
 
 
+_TRUTH_NEUTRAL_CALLS = {"isinstance", "issubclass", "callable", "hasattr", "np.isnan", "np.isfinite", "np.isinf", "math.isnan", "math.isfinite",
+                        "np.isscalar", "len"}
+
+
+def _literal_value(e):
+    """value of an expression made of literals and arithmetic only (`-0`, `1 - 1`, `0 * 5`), else a marker"""
+    if all(isinstance(x, (ast.Constant, ast.BinOp, ast.UnaryOp, ast.operator, ast.unaryop, ast.Tuple, ast.Load)) for x in ast.walk(e)) \
+            and not any(isinstance(x, ast.Constant) and isinstance(x.value, (str, bytes)) and len(x.value) > 20 for x in ast.walk(e)) \
+            and not any(isinstance(x, ast.Pow) for x in ast.walk(e)):
+        try:
+            return eval(compile(ast.Expression(body=e), "<literal>", "eval"), {"__builtins__": {}}, {})
+        except Exception:
+            return _literal_value
+    return _literal_value
+
+
+def _decided_other_than_by_none(fn, names, before=None):
+    """{name: node}: optional values (None = absent) whose presence a test decides by anything but a comparison with None.
+    An allow-list: inside a test (if / while / conditional expression / assert / comprehension filter, operands of and / or /
+    not anywhere) a mention of the name is fine as `p is None` / `p is not None`, as an operand of an ordering comparison or of
+    `==` / `!=` / `in` whose other side is no falsy literal, as an index / key, or as the argument of a predicate that does not
+    look at its magnitude (isinstance, np.isnan ..).  Every other expression in truth position that mentions the name - the bare
+    name, `-p`, `p * 1`, `int(p)`, `abs(p) > 0`, `p != 1 - 1`, `p not in (None, False)`, `{None: 0, 0: 0}.get(p, 1)` - singles a
+    legal falsy value out."""
+    out = {}
+    names = set(names)
+
+    def mentions(e):
+        for x in ast.walk(e):
+            if isinstance(x, ast.Name) and x.id in names and isinstance(x.ctx, ast.Load):
+                if before is not None and x.id in before and x.lineno > before[x.id]:
+                    continue
+                return x
+        return None
+
+    def falsy_literal(e):
+        v = _literal_value(e)
+        if v is _literal_value:
+            return False
+        if isinstance(v, tuple):
+            return any((not x) and x is not None for x in v)
+        return (not v) and v is not None
+
+    def truth(e):
+        """`e` stands where its truth value decides"""
+        if isinstance(e, ast.BoolOp):
+            for v in e.values:
+                truth(v)
+            return
+        if isinstance(e, ast.UnaryOp) and isinstance(e.op, ast.Not):
+            truth(e.operand)
+            return
+        if isinstance(e, ast.IfExp):
+            truth(e.test)
+            truth(e.body)
+            truth(e.orelse)
+            return
+        if isinstance(e, ast.NamedExpr):
+            truth(e.value)
+            return
+        m = mentions(e)
+        if m is None:
+            return
+        if isinstance(e, ast.Compare):
+            sides = [e.left] + list(e.comparators)
+            for k, op in enumerate(e.ops):
+                l, r = sides[k], sides[k + 1]
+                for this, other in ((l, r), (r, l)):
+                    if mentions(this) is None:
+                        continue
+                    if isinstance(other, ast.Constant) and other.value is None and isinstance(op, (ast.Is, ast.IsNot, ast.Eq, ast.NotEq)):
+                        continue
+                    if isinstance(op, (ast.In, ast.NotIn)) and this is l and isinstance(other, (ast.Tuple, ast.List, ast.Set)):
+                        if any(falsy_literal(x) for x in other.elts):
+                            out.setdefault(m.id, e)
+                        continue
+                    if falsy_literal(other) and not (isinstance(op, (ast.Lt, ast.LtE, ast.Gt, ast.GtE)) and isinstance(this, (ast.Name, ast.Subscript, ast.Attribute))):
+                        # `p != 0`, `abs(p) > 0`, `p != 1 - 1`: the legal zero is singled out (an ordering test against zero that is the
+                        # function's own range check is written against the documented bound, not in a test that also asks for None)
+                        out.setdefault(m.id, e)
+                        continue
+                    if not isinstance(this, (ast.Name, ast.BinOp, ast.Subscript, ast.Attribute)) and not isinstance(op, (ast.In, ast.NotIn)):
+                        out.setdefault(m.id, e)      # `int(p) == 1`, `(lambda ..)(p) is x`: the name goes through something else first
+            return
+        if isinstance(e, ast.Call) and (call_name(e) or "") in _TRUTH_NEUTRAL_CALLS:
+            return
+        if isinstance(e, ast.Subscript) and mentions(e.value) is None:
+            return          # table[p] decides by what the table holds
+        out.setdefault(m.id, e)
+
+    for n in ast.walk(fn):
+        if isinstance(n, (ast.If, ast.While, ast.IfExp, ast.Assert)):
+            truth(n.test)
+        elif isinstance(n, ast.comprehension):
+            for c in n.ifs:
+                truth(c)
+        elif isinstance(n, ast.BoolOp):
+            for v in n.values[:-1]:
+                truth(v)
+        elif isinstance(n, ast.UnaryOp) and isinstance(n.op, ast.Not):
+            truth(n.operand)
+        elif isinstance(n, ast.Call) and (call_name(n) or "") in ("bool", "operator.truth", "truth", "any", "all") and n.args:
+            for a in n.args:
+                for x in (a.elts if isinstance(a, (ast.Tuple, ast.List, ast.Set)) else [a]):
+                    truth(x)
+        elif isinstance(n, ast.Call) and isinstance(n.func, ast.Attribute) and n.func.attr in ("__bool__", "__len__") and not n.args:
+            truth(n.func.value)
+    return out
+
+
 def optional_numbers_tested_for_none(ctx, rel, rule, min_params=1, only=None):
     """A parameter whose default is None and which the function uses as a number (ordered comparison / arithmetic), as an index or
     as a key (`xs[p]`, `p in table`) has two different 'absent' candidates: None and the falsy legal value (0, the empty
@@ -189,6 +299,8 @@ def optional_numbers_tested_for_none(ctx, rel, rule, min_params=1, only=None):
             if isinstance(x, ast.Name) and isinstance(x.ctx, ast.Store) and x.id in optional:
                 first_store[x.id] = min(first_store.get(x.id, 10 ** 9), x.lineno)
         truth = _truth_tested_names(f, before=first_store)
+        for k_, v_ in _decided_other_than_by_none(f, optional & valued, before=first_store).items():
+            truth.setdefault(k_, v_)
         for p in sorted(optional & valued):
             n += 1
             ctx.ob(rule, rel, qual, f"optional value `{p}` (None = absent)", p not in truth,
@@ -362,22 +474,50 @@ def integer_tests_accept_numpy(ctx, rel, rule, min_tests=1):
     (elements of a code array, results of np.where / argmax).  Integer tests use numbers.Integral (or name np.integer)."""
     s = ctx.src(rel)
     n = 0
+    # what the abstract names mean in this module: `Integral` / `Real` must come from `numbers`
+    from_numbers = {(al.asname or al.name) for st in ast.walk(s.tree) if isinstance(st, ast.ImportFrom) and st.module == "numbers" for al in st.names}
+    rebound = {t.id for st in s.tree.body if isinstance(st, (ast.Assign, ast.AnnAssign)) for t in ast.walk(st) if isinstance(t, ast.Name)
+               and isinstance(t.ctx, ast.Store)}
+    abstract = {"numbers.Integral", "numbers.Real", "numbers.Number"} | {x for x in ("Integral", "Real", "Number") if x in from_numbers and x not in rebound}
+    intish = {"int", "np.integer", "np.signedinteger", "np.unsignedinteger", "np.int8", "np.int16", "np.int32", "np.int64", "np.uint8", "np.uint16",
+              "np.uint32", "np.uint64", "np.intp", "np.int_", "Integral", "Real", "numbers.Integral", "numbers.Real"}
     for qual, f in s.funcs.items():
         for c in ast.walk(f):
+            if any(c in ast.walk(g) for q2, g in s.funcs.items() if q2 != qual and q2.startswith(qual + ".")):
+                continue
+            # the exact class spelled out: `type(x) is int`, `type(x) == int`, `type(x) in (int, ..)`
+            if isinstance(c, ast.Compare) and len(c.ops) == 1 and isinstance(c.left, ast.Call) and isinstance(c.left.func, ast.Name) \
+                    and c.left.func.id == "type" and len(c.left.args) == 1:
+                other = c.comparators[0]
+                names_ = [ast.unparse(m) for m in (other.elts if isinstance(other, (ast.Tuple, ast.List, ast.Set)) else [other])]
+                if any(x in intish for x in names_):
+                    n += 1
+                    ctx.ob(rule, rel, qual, ast.unparse(c)[:70], False,
+                           "the test names one exact class: a NumPy integer (or a Python int, if a NumPy class is named) takes the other branch", c.lineno)
+                continue
             if not (isinstance(c, ast.Call) and isinstance(c.func, ast.Name) and c.func.id == "isinstance" and len(c.args) == 2):
                 continue
             t = c.args[1]
             members = list(t.elts) if isinstance(t, ast.Tuple) else [t]
             txt = [ast.unparse(m) for m in members]
-            if not any(x in ("int", "numbers.Integral", "Integral", "np.integer", "numbers.Real", "Real") for x in txt):
-                continue
-            if any(c in ast.walk(g) for q2, g in s.funcs.items() if q2 != qual and q2.startswith(qual + ".")):
+            computed = not all(isinstance(m, (ast.Name, ast.Attribute)) for m in members)
+            if not any(x in intish for x in txt) and not (computed and any(isinstance(x, ast.Name) and x.id in intish for x in ast.walk(t))):
                 continue
             n += 1
-            narrow = "int" in txt and not any(x in ("numbers.Integral", "Integral", "np.integer", "numbers.Real", "Real") for x in txt)
-            ctx.ob(rule, rel, qual, ast.unparse(c)[:70], not narrow,
-                   "a NumPy integer (np.int64 from np.where / argmax / an element of a code array) is not an instance of int: it takes the other branch",
-                   c.lineno)
+            # accepted: an abstract class of `numbers`, or both the Python and the NumPy integer class
+            wide = any(x in abstract for x in txt) or ("int" in txt and any(x in ("np.integer", "np.signedinteger") for x in txt))
+            # ... and not taken back in the same condition (`isinstance(x, Integral) and not isinstance(x, np.generic)`)
+            taken_back = False
+            for b_ in ast.walk(f):
+                if isinstance(b_, ast.BoolOp) and isinstance(b_.op, ast.And) and any(v is c for v in b_.values):
+                    for v in b_.values:
+                        if isinstance(v, ast.UnaryOp) and isinstance(v.op, ast.Not) and isinstance(v.operand, ast.Call) and call_name(v.operand) == "isinstance" \
+                                and len(v.operand.args) == 2 and ast.dump(v.operand.args[0]) == ast.dump(c.args[0]):
+                            taken_back = True
+            ctx.ob(rule, rel, qual, ast.unparse(c)[:70], wide and not computed and not taken_back,
+                   "a NumPy integer (np.int64 from np.where / argmax / an element of a code array) and a Python int must both pass an integer test: "
+                   + ("the class tuple is computed" if computed else "part of it is excluded again in the same condition" if taken_back
+                      else "the classes named accept only one of them"), c.lineno)
     ctx.floor(f"{rule}:{rel}", n, min_tests)
     return n
 
@@ -768,4 +908,105 @@ def lookup_results_tested_for_none(ctx, rel, rule, min_sites=0):
                    f"`{nm}` is the result of a look-up and is tested by its truth value: a found value that is falsy (index 0, an empty "
                    "string) is taken for 'not found'", getattr(truth.get(nm), "lineno", f.lineno))
     ctx.floor(f"{rule}:{rel}", n, min_sites)
+    return n
+
+
+# ---------------------------------------------------------------------------
+# declared C types (lowered Cython): the `cdef` prefix leaves the tree, the types stay in Lowered.decls / funcs / ctypedefs
+
+
+def ctype_facts(low):
+    """what the Cython source declares: resolved type of every typed local / attribute per scope, result type, exception clause
+    and parameter types of every function, the file's ctypedefs, and the typed call sites whose argument does not fit"""
+    def res(t):
+        t = (t or "").replace("const ", "").strip()
+        base, dims = (t[:t.index("[")].strip(), t[t.index("["):]) if "[" in t else (t, "")
+        return low.resolve(base) + dims.replace(" ", "")
+    decls = {sc: {n: res(t) for n, t in d.items()} for sc, d in low.decls.items()}
+    funcs = {q: {"ret": res(f.rettype), "except": f.except_clause or "", "params": [[pn, res(pt)] for pn, pt, _ in f.params]} for q, f in low.funcs.items()}
+    return {"decls": decls, "funcs": funcs, "ctypedefs": {a: low.resolve(a) for a in low.ctypedefs}, "narrowing_calls": sorted(_narrowing_calls(low, res))}
+
+
+def _narrowing_calls(low, res):
+    from .normalize import _conversion_free, _ctype_of_expr, _CNUM
+    from . import pyxfront
+    out = set()
+    by_name = {}
+    for q, f in low.funcs.items():
+        by_name.setdefault(f.name, []).append(f)
+    for q, fn in pyxfront.iter_funcs(low.tree):
+        def tn(n_):
+            return res(low.ctype(q, n_))
+        for c in ast.walk(fn):
+            if not isinstance(c, ast.Call):
+                continue
+            nm = c.func.id if isinstance(c.func, ast.Name) else c.func.attr if isinstance(c.func, ast.Attribute) and isinstance(c.func.value, ast.Name) \
+                and c.func.value.id in ("self", "cls") else None
+            for f in by_name.get(nm, []):
+                ps = [p_ for p_ in f.params if p_[0] not in ("self", "cls")]
+                for k, a in enumerate(c.args):
+                    if k >= len(ps):
+                        break
+                    pt = res(ps[k][1])
+                    at = _ctype_of_expr(a, tn)
+                    if pt in _CNUM and at in _CNUM and not _conversion_free(pt, at):
+                        out.add(f"{q} -> {f.name}({ps[k][0]}: {pt}) <- {at}")
+    return out
+
+
+def declared_types_keep_values(ctx, rel, rule="R0.declared-c-types"):
+    """a C declaration converts what is stored into it.  Against the declarations of the reference (localnames.json, `ctypes`):
+    a typed local / attribute / parameter / result may get a wider type of the same kind, never one that loses values
+    (float32 -> int, uint32 -> uint8, int32 -> unsigned int); the file's ctypedefs keep their targets; the exception clause of
+    a C function stays (without it a `raise` inside is printed and ignored); no call hands a typed value to a narrower typed
+    parameter of a function of the file unless the reference did the same."""
+    from . import localnames
+    from .normalize import _conversion_free
+    s = ctx.src(rel)
+    if not s.is_pyx or s.low is None:
+        return 0
+    ref = (localnames.table().get(rel, {}).get("__inventory__") or {}).get("ctypes")
+    if ref is None:
+        return 0
+    new = ctype_facts(s.low)
+    n = 0
+
+    def split(t):
+        return (t[:t.index("[")], t[t.index("["):]) if "[" in t else (t, "")
+
+    def fits(nt, ot):
+        (nb, nd), (ob_, od) = split(nt), split(ot)
+        return nd == od and (nb == ob_ or _conversion_free(nb, ob_))
+    bad_td = sorted(a for a, t in ref["ctypedefs"].items() if new["ctypedefs"].get(a, t) != t)
+    n += 1
+    ctx.ob(rule, rel, "<module>", "ctypedefs keep their targets", not bad_td,
+           f"`{bad_td[0] if bad_td else ''}` now means {new['ctypedefs'].get(bad_td[0]) if bad_td else ''} "
+           f"(was {ref['ctypedefs'].get(bad_td[0]) if bad_td else ''}): every declaration that uses the name converts differently", 1)
+    for q, rf in sorted(ref["funcs"].items()):
+        nf = new["funcs"].get(q)
+        if nf is None:
+            continue
+        n += 1
+        probs = []
+        if rf["ret"] and nf["ret"] != rf["ret"] and not fits(nf["ret"], rf["ret"]):
+            probs.append(f"the result is declared {nf['ret'] or 'object'} (was {rf['ret']}): values are converted on return")
+        if (nf["except"] or "") != (rf["except"] or ""):
+            probs.append(f"the exception clause changed from `{rf['except'] or 'none'}` to `{nf['except'] or 'none'}`: an exception raised inside is "
+                         "no longer propagated the same way")
+        for k, (pn, pt) in enumerate(rf["params"]):
+            if k < len(nf["params"]) and pt and nf["params"][k][1] != pt and not fits(nf["params"][k][1], pt):
+                probs.append(f"parameter {k + 1} is declared {nf['params'][k][1] or 'object'} (was {pt}): arguments are converted on entry")
+        ctx.ob(rule, rel, q, "result type, exception clause and parameter types", not probs, "; ".join(probs), getattr(s.low.funcs.get(q), "line", 1))
+    for sc, rd in sorted(ref["decls"].items()):
+        nd = new["decls"].get(sc)
+        if nd is None:
+            continue
+        bad = [(nm, nd[nm], t) for nm, t in sorted(rd.items()) if nm in nd and nd[nm] != t and not fits(nd[nm], t)]
+        n += 1
+        ctx.ob(rule, rel, sc or "<module>", f"{len(rd)} typed names keep every value of their reference type", not bad,
+               (f"`{bad[0][0]}` is declared {bad[0][1]} (was {bad[0][2]}): what is stored into it is truncated, narrowed or changes sign" if bad else ""), 1)
+    extra = sorted(set(new["narrowing_calls"]) - set(ref.get("narrowing_calls", [])))
+    n += 1
+    ctx.ob(rule, rel, "<module>", "no typed argument is handed to a narrower typed parameter", not extra,
+           (f"{extra[0]}: the value is narrowed / changes sign at the call without a check" if extra else ""), 1)
     return n
